@@ -6,7 +6,10 @@ Import ListNotations.
 Require Import Nib.C17.AnteFacts Nib.C17.MsgTree Nib.C02.Model Nib.C02.Spec Nib.C02.Check.
 Local Open Scope Z_scope.
 
-Definition eth (a : addr) (n : nat) (g : Z) : msg := Leaf (EthTx a n g WEI 1).
+Definition eth (a : addr) (n : nat) (g : Z) : msg := Leaf (EthTx a n g WEI 1 (x_transfer WEI)).
+(** contract creation / contract call carrying [v] unibi at a gas price of 0 (charged at the base fee) *)
+Definition xc (k : xkind) (out : xout) (intr : Z) : xinfo := {| x_kind := k; x_cap := 0; x_intr := intr; x_exec := 0; x_out := out |}.
+Definition ethx (a : addr) (n : nat) (g v : Z) (x : xinfo) : msg := Leaf (EthTx a n g WEI v x).
 Definition evm_tx (ms : list msg) : tx := {| t_ext := EvmExt; t_signer := 98; t_key := KNone; t_fee := 1000000; t_msgs := ms |}.
 Definition cos_tx (s : addr) (ms : list msg) : tx := {| t_ext := NoExt; t_signer := s; t_key := KCosmos; t_fee := 1000000; t_msgs := ms |}.
 Definition ek_tx (s : addr) (ms : list msg) : tx := {| t_ext := NoExt; t_signer := s; t_key := KEth; t_fee := 1000000; t_msgs := ms |}.
@@ -26,26 +29,40 @@ Definition sweep_cases : list (list tx) := [
   [evm_tx [eth 20 0 21000]; {| t_ext := NoExt; t_signer := 98; t_key := KNone; t_fee := 1000000; t_msgs := [eth 20 0 50000] |}];
   [evm_tx [eth 20 0 21000]; {| t_ext := OtherExt; t_signer := 98; t_key := KNone; t_fee := 1000000; t_msgs := [eth 20 0 50000] |}];
   [ek_tx 20 [Exec 20 [Leaf (Grant 20 1 (MKLeaf K_ETH))]]; cos_tx 1 [Exec 1 [Exec 1 [eth 20 0 50000]]]];
-  [evm_tx [eth 20 0 21000]; cos_tx 1 [Exec 1 [Exec 1 [Leaf (EthTxAs 1 20 0 50000 WEI 1)]]]];
-  [evm_tx [eth 20 0 21000]; cos_tx 0 [Wasm 0 10 [Exec 10 [Leaf (EthTxAs 10 20 0 50000 WEI 1)]]]];
-  [evm_tx [eth 20 0 21000]; cos_tx 1 [Exec 1 [Leaf (EthTxAs 1 20 0 50000 WEI 1)]]];
-  [evm_tx [eth 20 0 21000]; cos_tx 1 [Leaf (EthTxAs 1 20 0 50000 WEI 1)]]
+  [evm_tx [eth 20 0 21000]; cos_tx 1 [Exec 1 [Exec 1 [Leaf (EthTxAs 1 20 0 50000 WEI 1 (x_transfer WEI))]]]];
+  [evm_tx [eth 20 0 21000]; cos_tx 0 [Wasm 0 10 [Exec 10 [Leaf (EthTxAs 10 20 0 50000 WEI 1 (x_transfer WEI))]]]];
+  [evm_tx [eth 20 0 21000]; cos_tx 1 [Exec 1 [Leaf (EthTxAs 1 20 0 50000 WEI 1 (x_transfer WEI))]]];
+  [evm_tx [eth 20 0 21000]; cos_tx 1 [Leaf (EthTxAs 1 20 0 50000 WEI 1 (x_transfer WEI))]];
+  (* executions that fail: the sender can pay the value or the prepayment but not both; REVERT; invalid opcode;
+     each delivered twice *)
+  [evm_tx [ethx 23 0 100000 350000 (xc XCreate XStop 53004)]; evm_tx [ethx 23 0 100000 350000 (xc XCreate XStop 53004)]];
+  [evm_tx [ethx 23 0 100000 350000 (xc XCall XStop 21000)]; evm_tx [ethx 23 0 100000 350000 (xc XCall XStop 21000)]];
+  [evm_tx [ethx 20 0 100000 7 (xc XCreate XRevert 53056)]; evm_tx [ethx 20 0 100000 7 (xc XCreate XRevert 53056)]];
+  [evm_tx [ethx 20 0 60000 0 (xc XCreate XInvalid 53016)]; evm_tx [ethx 20 0 60000 0 (xc XCreate XInvalid 53016)]];
+  [evm_tx [ethx 21 0 21000 600000000000000 (xc XCall XStop 21000); ethx 21 1 80000 600000000000000 (xc XCreate XStop 53004)];
+   evm_tx [ethx 21 1 80000 600000000000000 (xc XCreate XStop 53004)]]
 ].
 
 (** what must never be seen after one transaction, on the model's own states *)
+(** the EVM ante chain admitted the transaction (whether or not its messages then succeeded) *)
+Definition ante_admitted (c : cfg) (s : st) (x : tx) : bool :=
+  match route_tx c (t_ext x) with
+  | RouteEVM => match evm_ante c harness_world s x with Some _ => true | None => false end
+  | _ => false
+  end.
+
 Definition tx_bad (c : cfg) (s : st) (x : tx) : bool :=
   let '(s', ok) := deliver c harness_world s x in
   let touched a := negb (Nat.eqb (seq_of s' a) (seq_of s a)) || negb (bal_of s' a =? bal_of s a) in
-  let accts := [20%nat; 21%nat; 22%nat] in
+  let accts := [20%nat; 21%nat; 22%nat; 23%nat] in
   (negb (is_evm (t_ext x)) && (negb (Nat.eqb (List.length (ran s')) (List.length (ran s))) || existsb touched accts))
   || existsb (fun a => Nat.ltb (seq_of s' a) (seq_of s a) || (bal_of s a <? bal_of s' a)) accts
   || (feecol s' <? feecol s)
-  || (is_evm (t_ext x) && ok &&
+  || (is_evm (t_ext x) && (ok || ante_admitted c s x) &&
       negb (match direct_eth (t_msgs x) with
             | Some ls => forallb (fun a => let mine := filter (leaf_from_is a) ls in
                                            nonces_from (seq_of s a) mine
-                                           && Nat.eqb (seq_of s' a) (seq_of s a + List.length mine)
-                                           && (bal_of s a - bal_of s' a =? sumZ (map net_cost mine))) accts
+                                           && Nat.eqb (seq_of s' a) (seq_of s a + List.length mine)) accts
             | None => false
             end)).
 
